@@ -115,6 +115,24 @@ def oracle(tier, rng, deep=False):
             ev += 1
             if abs(Fs(w1, 0) - Fs(w2, 0)) > 1e-6 * (1 + abs(Fs(w1, 0))):
                 failures.append(dict(site="objective-gap:SqrtLasso:ProxNewton-vs-PDCD_WS", input=dict(inp, alpha=asq), observed=dict(F1=Fs(w1, 0), F2=Fs(w2, 0))))
+            # SqrtLasso estimator: every point of path() and a single-alpha fit() reach the optimum of their own alpha
+            # (reference = the converged direct solve above, objective compared)
+            from skglm.experimental.sqrt_lasso import SqrtLasso
+            amax_sq = float(np.max(np.abs(X.T @ y))) / float(np.linalg.norm(y))
+            grid = np.array(sorted([amax_sq * f for f in rng.sample([0.9, 0.6, 0.45, 0.3, 0.15], rng.randint(2, 4))], reverse=True))
+            al_out, coefs = SqrtLasso(tol=1e-9, max_iter=200).path(X, y, alphas=grid)[:2]
+            coefs = np.asarray(coefs)
+            coefs = coefs if coefs.shape[0] == p else coefs.T
+            for t_, a in enumerate(al_out):
+                wref, _, _, sref = sl.run(ss.ProxNewton(tol=1e-10, fit_intercept=False, max_iter=200), Xf, y, cc(SqrtQuadratic()), cc(sp.L1(float(a))))
+                Fa = lambda w: float(np.linalg.norm(y - X @ w) + a * np.sum(np.abs(w)))
+                ev += 1
+                if np.linalg.norm(y - X @ wref) < 2e-2 * np.linalg.norm(y):
+                    continue
+                if Fa(coefs[:, t_]) - Fa(wref) > 1e-6 * (1 + abs(Fa(wref))):
+                    failures.append(dict(site="objective-gap:SqrtLasso.path-vs-direct-solve", input=dict(inp, alphas=list(map(float, al_out)), t=t_),
+                                         observed=dict(F_path=Fa(coefs[:, t_]), F_ref=Fa(wref))))
+                    break
         except Exception as e:
             failures.append(dict(site="raises:pairwise", input=inp, observed=f"{type(e).__name__}: {str(e)[:300]}"))
     return dict(evaluations=ev, distinct_nontrivial=nontriv, failures=failures, samples=[dict(pairs=ev)])
